@@ -40,8 +40,8 @@ P = {
          "items tagged (source, seq); per source 0,1,2,..; None iff all sources ended; a Pending that did not wake its task requires every held source to have answered Pending last; 0..150 sources crossing the 32/64 group boundaries, pushes into a running merge",
          "exploration"),
  'C12': ("stateful PBT: counting inequality child polls <= accepted pushes + effective wakes + merge items",
-         "wakes are attributed to the slot they hit and coalesced exactly like the queued flag (repeated wakes between two polls of a child count once); the inequality is evaluated after every operation",
-         "exploration"),
+         "wakes are attributed to the slot they hit and coalesced exactly like the queued flag (repeated wakes between two polls of a child count once); the inequality is evaluated after every operation; under concurrency: E2 (generated shuttle schedules) checks the aggregate and a per-child form of the inequality, E4 hammer mode (threads invoking hot children's wakers in tight loops while the owner polls) requires that a child whose waker is never invoked is polled exactly once",
+         "exploration; the hammer run is timing dependent (its verdict is sound in every interleaving, its reach depends on the machine)"),
  'C13': ("PBT on adversarial populations: bounded-delay and bounded-work counters",
          "forever self-waking futures, endless sources and push-one/pop-one refill around a victim that is woken once; a woken child must be polled within (G+1)(N+2)+4 collection polls (G groups, N capacity) and one call may make at most 1024(2G+1)(events+2) child polls (no oracle depends on today's budget of 61); an unbounded loop is cut by a hard cap and reported",
          "exploration; bounds are deliberately generous because failures are unbounded"),
